@@ -42,6 +42,15 @@ Fixpoint gval_eqb (a b : gval) : bool :=
          end) k1 k2
   | GText x, GText y => ostr_eqb x y
   | GDerived q1 v1, GDerived q2 v2 => str_eqb q1 q2 && prim_eqb v1 v2
+  | GHolder c1 a1 s1 i1, GHolder c2 a2 s2 i2 =>
+      str_eqb (c_rq c1) (c_rq c2) && attrs_eqb a1 a2 &&
+      (match s1, s2 with SNone, SNone | SOne, SOne | SMany, SMany => true | _, _ => false end) &&
+      (fix go (u v : list gval) : bool :=
+         match u, v with
+         | [], [] => true
+         | p :: u', q :: v' => gval_eqb p q && go u' v'
+         | _, _ => false
+         end) i1 i2
   | _, _ => false
   end.
 Definition wval_eqb (a b : wval) : bool :=
@@ -54,7 +63,8 @@ Definition wval_eqb (a b : wval) : bool :=
 Definition robj_eqb (a b : robj) : bool := attrs_eqb (r_atts a) (r_atts b) && wval_eqb (r_w a) (r_w b).
 Definition perr_eqb (a b : perr) : bool :=
   match a, b with
-  | EParser, EParser | EConverter, EConverter | EContext, EContext | EUnsupported, EUnsupported => true
+  | EParser, EParser | EConverter, EConverter | EContext, EContext | ETypeError, ETypeError
+  | EUnsupported, EUnsupported => true
   | _, _ => false
   end.
 
@@ -106,7 +116,7 @@ Definition oracle_of (tx tl : list (node_id * nat)) : oracle :=
   mkOracle (fun p => vis_get p tx) (fun p => vis_get p tl).
 
 (* specification-side description of a placement *)
-Record placement := mkPl { pl_cfg : wcfg; pl_target : option str; pl_kws : list nskw }.
+Record placement := mkPl { pl_cfg : wcfg; pl_target : option str; pl_kws : list nskw; pl_reg : list wcfg }.
 
 Record obs := mkObs {
   ob_pl : option placement;             (* None = the stand-alone TreeParser *)
@@ -123,7 +133,7 @@ Definition case : Type := itree * list obs.
 Definition model_parse (pl : option placement) (evs : list pevent) : pobs :=
   match pl with
   | None => match tree_parse evs with Some v => POTree v | None => POErr EUnsupported end
-  | Some p => match wild_parse (pl_cfg p) evs with Ok o => POObj o | Err e => POErr e end
+  | Some p => match wild_parse (pl_reg p) (pl_cfg p) evs with Ok o => POObj o | Err e => POErr e end
   end.
 Definition pobs_eqb (a b : pobs) : bool :=
   match a, b with
@@ -152,6 +162,27 @@ Definition ns_of_clark (q : str) : option str :=
 Definition xsd_valid (p : placement) (t : itree) : bool :=
   forallb (fun k => xsd_allows (pl_target p) (pl_kws p) (ns_of_clark (i_name k))) (i_kids t).
 
+(* holder positions: the root of a holder placement, and every child of a holder
+   position whose name is a registered holder class (found by qname) *)
+Definition in_reg (reg : list wcfg) (q : str) : option wcfg := find (fun n => str_eqb (c_rq n) q) reg.
+
+(* requirements on the element at a holder position for the property to apply *)
+Definition holder_node_ok (c : wcfg) (t : itree) : bool :=
+  negb (has_xsi (i_atts t))
+  && (c_amap c || match i_atts t with [] => true | _ => false end)
+  && (match c_kind c with KChoice => all_ws (i_text t) | _ => true end)
+  && forallb (fun k => negb (existsb (str_eqb (i_name k)) (c_typed c))) (i_kids t).
+
+Fixpoint holders_ok (reg : list wcfg) (c : wcfg) (t : itree) : bool :=
+  match t with
+  | INode n a d x ks l =>
+      holder_node_ok c t &&
+      forallb (fun k => match in_reg reg (i_name k) with
+                        | Some n' => holders_ok reg n' k
+                        | None => true
+                        end) ks
+  end.
+
 (* placements to which the property applies at all *)
 Definition applicable (pl : option placement) (t : itree) : bool :=
   match pl with
@@ -160,17 +191,63 @@ Definition applicable (pl : option placement) (t : itree) : bool :=
       let c := pl_cfg p in
       str_eqb (i_name t) (c_rq c)
       && (match i_tail t with [] => true | _ => false end)
-      && negb (has_xsi (i_atts t))
-      && (c_amap c || match i_atts t with [] => true | _ => false end)
-      && (match c_kind c with KChoice => all_ws (i_text t) | _ => true end)
-      && forallb (fun k => negb (existsb (str_eqb (i_name k)) (c_typed c))) (i_kids t)
+      && holders_ok (pl_reg p) c t
       && xsd_valid p t
+  end.
+
+(* the whitespace exception with holder positions: blank text of a holder element is
+   not content even when it has no children (element-only content model) *)
+Fixpoint norm_holders (reg : list wcfg) (holder : bool) (t : itree) : itree :=
+  match t with
+  | INode n a d x ks l =>
+      INode n a d
+        (if holder then (if all_ws x then [] else x)
+         else match ks with [] => x | _ => if all_ws x then [] else x end)
+        (map (fun k => norm_holders reg (holder && match in_reg reg (i_name k) with Some _ => true | None => false end) k) ks)
+        (if all_ws l then [] else l)
   end.
 
 Definition expected (pl : option placement) (t : itree) : itree :=
   match pl with
   | None => norm_ws (canon [] t)
-  | Some _ => norm_ws_root (canon [] t)
+  | Some p => norm_holders (pl_reg p) true (canon [] t)
+  end.
+
+(* clause first-level, at every holder position *)
+Fixpoint g_first_level_reg (reg : list wcfg) (m : nsmap) (t : itree) : bool :=
+  match t with
+  | INode n a d x ks l =>
+      let m' := d ++ m in
+      forallb (fun k => fl_generic m' k && match in_reg reg (i_name k) with
+                                           | Some _ => g_first_level_reg reg m' k
+                                           | None => true
+                                           end) ks
+  end.
+
+(* guard clauses for nested holder classes *)
+Definition nonblank (s : str) : bool := negb (forallb py_isspace s).
+(* clause typedtail: a holder class element followed by text inside a non-mixed holder *)
+Fixpoint g_typed_tail (reg : list wcfg) (c : wcfg) (t : itree) : bool :=
+  match t with
+  | INode n a d x ks l =>
+      forallb (fun k => match in_reg reg (i_name k) with
+                        | Some n' => (match c_kind c with KMixed => true | _ => negb (nonblank (i_tail k)) end)
+                                     && g_typed_tail reg n' k
+                        | None => true
+                        end) ks
+  end.
+(* clause singletail: the tail of a single-wildcard holder is kept in the qname-less
+   wrapper and written inside the element unless the last child has a tail *)
+Definition last_tail_blank (ks : list itree) : bool :=
+  match rev ks with [] => false | k :: _ => negb (nonblank (i_tail k)) end.
+Fixpoint g_single_tail (reg : list wcfg) (c : wcfg) (t : itree) : bool :=
+  match t with
+  | INode n a d x ks l =>
+      forallb (fun k => match in_reg reg (i_name k) with
+                        | Some n' => negb (match c_kind n' with KSingle => nonblank (i_tail k) && last_tail_blank (i_kids k) | _ => false end)
+                                     && g_single_tail reg n' k
+                        | None => true
+                        end) ks
   end.
 
 (* names the model never has to look into, but the spec statement does *)
@@ -195,7 +272,8 @@ Definition bit (b : bool) (n : N) : N := if b then n else 0.
                                                    something although XSD rejects the document
    guard clauses that do not hold of this input (they classify an oracle failure):
     64 visible  128 nil  256 rewrite  512 dtclark  1024 xsitype  2048 space
-  4096 first-level xsi:type datatype (holder placements)   8192 ill-formed names (harness bug) *)
+  4096 first-level xsi:type datatype (holder placements)   8192 ill-formed names (harness bug)
+ 16384 typed child with a tail in a non-mixed holder   32768 tail of a single-wildcard holder written inside it *)
 Definition judge_obs (t : itree) (ob : obs) : N :=
   let o := oracle_of (ob_vtext ob) (ob_vtail ob) in
   let evs := pump o [] [] t in
@@ -218,7 +296,7 @@ Definition judge_obs (t : itree) (ob : obs) : N :=
   let app := applicable (ob_pl ob) t in
   let want := expected (ob_pl ob) t in
   (* the exception is a permission, not a duty: the output is normalised too *)
-  let nrm := match ob_pl ob with None => norm_ws | Some _ => norm_ws_root end in
+  let nrm := match ob_pl ob with None => norm_ws | Some p => norm_holders (pl_reg p) true end in
   let c_oracle :=
     app && negb (match ob_outs ob with
                  | [] => false
@@ -237,8 +315,10 @@ Definition judge_obs (t : itree) (ob : obs) : N :=
   + bit (negb (g_dtclark [] t)) 512
   + bit (negb (g_xsitype [] t)) 1024
   + bit (negb (g_space [] t && match ob_pl ob with Some _ => ws_consistent (i_text t) | None => true end)) 2048
-  + bit (match ob_pl ob with Some _ => negb (g_first_level [] t) | None => false end) 4096
-  + bit (negb (tree_all g_names_node [] t)) 8192.
+  + bit (match ob_pl ob with Some p => negb (g_first_level_reg (pl_reg p) [] t) | None => false end) 4096
+  + bit (negb (tree_all g_names_node [] t)) 8192
+  + bit (match ob_pl ob with Some p => negb (g_typed_tail (pl_reg p) (pl_cfg p) t) | None => false end) 16384
+  + bit (match ob_pl ob with Some p => negb (g_single_tail (pl_reg p) (pl_cfg p) t) | None => false end) 32768.
 
 Fixpoint judge_list (t : itree) (i : N) (l : list obs) : list (N * N) :=
   match l with
